@@ -165,8 +165,7 @@ func (f *frame) applyContract(ct *Contract, callee *ssa.Function, args []Val, st
 	} else if callee != nil {
 		ms := c.eng.summaryOf(callee).mods
 		if !ms.top {
-			mm := ms.m
-			keep = func(n string) bool { return !mm[n] && !strings.HasPrefix(n, "G|") || (strings.HasPrefix(n, "G|") && !c.eng.mayTouchGhost(callee, n)) }
+			keep = func(n string) bool { return !ms.has(n) }
 		}
 	}
 	nh := c.heapHavoc(st.heap, "ct_"+sanitize(ct.FuncName), keep)
@@ -246,6 +245,12 @@ func (f *frame) specEnvAt(b *ssa.BasicBlock, st State) *specEnv {
 		}
 		if phi.Comment != "" {
 			env.vars[phi.Comment] = sval{f.vals[phi], phi.Type(), ""}
+		}
+		if phi.Comment == "rangeindex" {
+			// the slice ranged over: operand of the element address computed from rangeindex+1
+			if sl := rangedSlice(phi); sl != nil {
+				env.vars["rangeslice"] = sval{f.get(sl), sl.Type(), ""}
+			}
 		}
 	}
 	// entry environment for old()
@@ -466,10 +471,12 @@ func (e *Engine) verifyLemma(l *Lemma) *FuncReport {
 	st := State{heap: c.entryHeap(), alloc: allocPtr{base: alloc0}}
 	env := &specEnv{c: c, vars: map[string]sval{}, st: st, reach: sTrue, lets: map[string]ast.Expr{}, pkg: e.pkgByPath(l.Pkg)}
 	for _, v := range l.Vars {
-		fs := strings.Fields(v)
-		if len(fs) != 2 {
+		v = strings.TrimSpace(v)
+		sp := strings.IndexAny(v, " \t")
+		if sp < 0 {
 			continue
 		}
+		fs := []string{v[:sp], strings.TrimSpace(v[sp+1:])}
 		n := c.declare("lv_"+fs[0], fs[1])
 		var t types.Type
 		if fs[1] == "Int" {
@@ -625,4 +632,30 @@ func (e *Engine) verifyGlobals(sf *SpecFile) *FuncReport {
 	rep.Obls = c.obls
 	rep.Exits = len(f.exits)
 	return rep
+}
+
+// rangedSlice finds the slice a `for ... range s` loop iterates over, from its rangeindex phi.
+func rangedSlice(phi *ssa.Phi) ssa.Value {
+	refs := phi.Referrers()
+	if refs == nil {
+		return nil
+	}
+	for _, r := range *refs {
+		bo, ok := r.(*ssa.BinOp)
+		if !ok || bo.Op != token.ADD {
+			continue
+		}
+		nrefs := bo.Referrers()
+		if nrefs == nil {
+			continue
+		}
+		for _, nr := range *nrefs {
+			if ia, ok := nr.(*ssa.IndexAddr); ok && ia.Index == ssa.Value(bo) {
+				if _, isSlice := ia.X.Type().Underlying().(*types.Slice); isSlice {
+					return ia.X
+				}
+			}
+		}
+	}
+	return nil
 }
